@@ -373,6 +373,120 @@ pub fn run_fail_real(ctx: &Ctx, salt: u64, cases: u32) -> (Stats, Vec<drive::Fai
 }
 
 // ---------------------------------------------------------------------------------------------------------------------
+// Real-file-system slice of C09: whatever ruler does, files that are not in-scope targets keep content, modification time
+// and permissions.  Some targets are symbolic links to a source file (only the real System has links): moving the link into
+// the cache must not move or touch the file it points to.
+
+pub fn c09_strategy() -> impl Strategy<Value = RealCase>
+{
+    // exactly one instruction in the whole graph copies a file verbatim (first target of the first rule, from a leaf, not
+    // made executable); it becomes the link.  No other target can then hold the same bytes, so ruler never has a reason to
+    // put the link anywhere but back at its own path — a link restored at ANOTHER rule's target would make that rule's
+    // command (`cat l > t`, `chmod +x t`) write through it into the source file, which is the command's doing, not ruler's
+    // (a first version allowed byte-identical twins and raised exactly that alarm on the unchanged tree).
+    strategy(5, 8).prop_map(|mut c|
+    {
+        c.graph.dirs = false;
+        c.graph.odd_names = false;
+        for (i, r) in c.graph.rules.iter_mut().enumerate()
+        {
+            for (k, kind) in r.kinds.iter_mut().enumerate()
+            {
+                if i == 0 && k == 0 { *kind = 2; } else if *kind == 2 { *kind = 0; }
+            }
+            if i == 0 { if let Some(e) = r.exec.get_mut(0) { *e = false; } }
+        }
+        c
+    })
+}
+
+pub fn c09_real(c: &RealCase, stats: &mut Stats) -> Result<(), String>
+{
+    use crate::verif::cmd::Instr;
+    let mut w = RealWorld::new(&c.graph)?;
+    // every other plain copy of a leaf into a non-executable target becomes a link
+    let leaves: BTreeSet<String> = w.leaves.iter().cloned().collect();
+    let mut links: BTreeSet<String> = BTreeSet::new();
+    let mut n = 0;
+    for r in w.model.rules.iter_mut()
+    {
+        let chmodded: BTreeSet<String> = r.script.iter().flatten().filter_map(|i| if let Instr::ChmodX { t } = i { Some(t.clone()) } else { None }).collect();
+        for chain in r.script.iter_mut()
+        {
+            for ins in chain.iter_mut()
+            {
+                if let Instr::EmitCopy { t, src } = ins
+                {
+                    if leaves.contains(src) && !chmodded.contains(t)
+                    {
+                        n += 1;
+                        if n == 1 { links.insert(t.clone()); *ins = Instr::EmitLink { t: t.clone(), src: src.clone() }; }
+                    }
+                }
+            }
+        }
+    }
+    w.sync_rules()?;
+    let mut invocations = 0;
+    let mut link_moved = false;
+    for op in c.ops.iter().chain([Op::Build { goal: None }, Op::Clean { goal: c.clean_goal }, Op::Build { goal: c.build_goal }].iter())
+    {
+        let (is_build, goal) = match op { Op::Build { goal } => (true, *goal), Op::Clean { goal } => (false, *goal), other => { w.apply_simple(other)?; continue; } };
+        let g = w.goal_path(goal);
+        let scope = w.model.scope(g.as_deref());
+        let in_scope_targets: BTreeSet<String> = w.model.rules.iter().enumerate().filter(|(i, _)| scope[*i]).flat_map(|(_, r)| r.targets.iter().cloned()).collect();
+        let before = w.snapshot();
+        let before_stat = w.stat_all();
+        let out = if is_build { w.build(g.as_deref())? } else { w.clean(g.as_deref())? };
+        invocations += 1;
+        let after = w.snapshot();
+        let after_stat = w.stat_all();
+        for (p, f) in before.iter()
+        {
+            if p.starts_with(".ruler/") || in_scope_targets.contains(p) { continue; }
+            match after.get(p)
+            {
+                None => return Err(format!("real fs: `{}` (goal {:?}) removed {} which is not an in-scope target{}", if is_build { "build" } else { "clean" }, g, p,
+                    if leaves.contains(p) { " (a source file some target is a symbolic link to)" } else { "" })),
+                Some(a) if a != f => return Err(format!("real fs: `{}` (goal {:?}) changed the content or permissions of {} which is not an in-scope target: {} bytes exec={} -> {} bytes exec={}; ruler printed {:?}", if is_build { "build" } else { "clean" }, g, p,
+                    f.0.len(), f.1, a.0.len(), a.1, out.stdout.chars().filter(|c| !c.is_control() || *c == '\n').take(400).collect::<String>())),
+                _ => {}
+            }
+            if before_stat.get(p) != after_stat.get(p)
+            {
+                return Err(format!("real fs: `{}` (goal {:?}) changed modification time or mode of {} which is not an in-scope target: {:?} -> {:?}", if is_build { "build" } else { "clean" }, g, p, before_stat.get(p), after_stat.get(p)));
+            }
+        }
+        if is_build { check_build(&w, g.as_deref(), &out)?; }
+        if links.iter().any(|t| in_scope_targets.contains(t) && before.contains_key(t) && (!is_build || out.stdout.contains("Built"))) { link_moved = true; }
+    }
+    stats.count("realfs_scenarios", 1);
+    stats.count("realfs_invocations", invocations);
+    if !links.is_empty() { stats.class("real-some-target-is-a-symbolic-link"); }
+    if link_moved { stats.class("real-link-target-displaced-or-cleaned"); stats.nontrivial(drive::key_of(c) ^ 0xC09); }
+    Ok(())
+}
+
+pub fn run_c09(ctx: &Ctx) -> drive::Report
+{
+    let mut rep = crate::verif::props::audits::run_c09(ctx);
+    let mut real = drive::drive_opts(ctx, 109, ctx.tier.pick(24, 300), 16, c09_strategy, c09_real);
+    for f in real.1.iter_mut() { f.case = serde_json::json!({ "real_fs": f.case }); }
+    rep.absorb(real);
+    rep
+}
+
+pub fn replay_c09(ctx: &Ctx, case: &serde_json::Value) -> Result<(), String>
+{
+    if let Some(inner) = case.get("real_fs")
+    {
+        let c: RealCase = drive::parse_case(inner)?;
+        return c09_real(&c, &mut Stats::default());
+    }
+    crate::verif::props::audits::replay_c09(ctx, case)
+}
+
+// ---------------------------------------------------------------------------------------------------------------------
 // Real-file-system slice of C05: commands that print a lot (more than a pipe buffer) to stderr and/or stdout.  Only the
 // real System talks to real child processes; a build that waits for its child in the wrong order never returns.
 
